@@ -199,6 +199,44 @@ Definition mut_add_or_renew (v : version) (f : file) (avail : N) (li : lease) : 
   | o => o
   end.
 
+(* cancel_lease: not reachable from the client protocols, used by the lease-expiry crawler.
+   Every lease answering to the cancel secret is overwritten IN PLACE by a blank record
+   (owner 0; _pack_leases is a no-op), so later slots keep their numbers and an unused slot
+   may sit between used ones.  When no lease remains the share file is unlinked (None). *)
+Definition is_cancel_secret (v : version) (stored : lease) (candidate : list N) : bool :=
+  list_N_eqb (l_cancel stored) (match v with V1 => candidate | V2 => H candidate end).
+
+Definition blank_lease : lease := mkLease 0 (zeros 32) (zeros 32) 0 (zeros 20).
+
+Fixpoint cancel_scan (v : version) (f : file) (ls : list (N * lease)) (cs : list N) (modified remaining : N)
+  : outcome * N * N :=
+  match ls with
+  | [] => (Done f, modified, remaining)
+  | (i, l) :: r =>
+      if is_cancel_secret v l cs then
+        match write_lease_record f i (ser_mutable (stored_form v blank_lease)) with
+        | Done f' => cancel_scan v f' r cs (modified + 1) remaining
+        | Raised f' e => (Raised f' e, modified, remaining)
+        end
+      else cancel_scan v f r cs modified (remaining + 1)
+  end.
+
+Definition mut_cancel_lease (v : version) (f : file) (cs : list N) : option file * option err :=
+  match mut_enumerate f with
+  | Err e => (Some f, Some e)
+  | Ok ls =>
+      match cancel_scan v f ls cs 0 0 with
+      | (Raised f' e, _, _) => (Some f', Some e)
+      | (Done f', modified, remaining) =>
+          if modified =? 0 then (Some f', Some EIndex)
+          else if remaining =? 0 then (None, None)
+          else (Some f', None)
+      end
+  end.
+
+Definition mutfile_cancel (f : file) (cs : list N) : option file * option err :=
+  match open_container f with Err e => (Some f, Some e) | Ok v => mut_cancel_lease v f cs end.
+
 (* the version is read from the container's own header on every open *)
 Definition mutfile_add_or_renew (f : file) (avail : N) (li : lease) : outcome :=
   match open_container f with Err e => Raised f e | Ok v => mut_add_or_renew v f avail li end.
